@@ -554,7 +554,11 @@ type segEntries struct {
 	mediaTimescale uint32
 }
 
+// lastNr returns the number of the last segment, or -1 if there are no segments.
 func (s segEntries) lastNr() int {
+	if s.startNr < 0 { // Empty list since no segment has finished yet
+		return -1
+	}
 	nrSegs := 0
 	for _, e := range s.entries {
 		nrSegs += int(e.R) + 1
